@@ -165,6 +165,9 @@ class Check(BaseCheck):
                ("dup-equal-values", (np.array([2, 2]), np.array([1.0, 1.0])), ()), ("dup-not-adjacent", (np.array([0, 3, 5, 0]), np.array([1.0, 2.0, 0.5, 1.0])), ()),
                ("dup-zero-values", (np.array([4, 1, 4]), np.array([0.0, 0.0, 0.0])), ()), ("len-longer-data", (np.array([0]), np.array([1.0, 2.0])), ()),
                ("nempty", (np.array([0]), np.array([1.0])), (np.array([], dtype=int), np.array([]))),
+               ("one-value-for-three-vertices", (np.array([0, 3, 5]), np.array([1.0])), ()), ("one-value-for-two-vertices-list", ([0, 7], [2.5]), ()),
+               ("n-one-value-for-three-vertices", (np.array([0]), np.array([1.0])), (np.array([1, 2, 3]), np.array([0.5]))),
+               ("two-values-for-three-vertices", (np.array([0, 3, 5]), np.array([1.0, 2.0])), ()),
                ("ok-neumann", (np.array([0, 7]), np.array([1.0, -1.0])), (np.array([1, 2]), np.array([1.0, 0.5])))]
         for name, dt, nt in bad:
             case = dict(kind="tri", v=v, t=t, lump=False, h=0.0, hmode="zero", didx=np.array(dt[0]), ddat=np.array(dt[1]), ntup=nt, dtup_override=dt, name="bad:" + name)
@@ -195,6 +198,20 @@ class Check(BaseCheck):
         if not np.isscalar(case["h"]):
             case["h"] = np.asarray(case["h"], float).astype(case.get("hdtype", "float64"))
         if case.get("name", "").startswith("bad:"):
+            # the argument checks, stated independently: a tuple has exactly two members (indices, values) of equal positive length; Dirichlet
+            # indices are pairwise distinct
+            def expect_error(tup, unique):
+                if not tup:
+                    return False
+                if len(tup) != 2:
+                    return True
+                idx, dat = np.asarray(tup[0]).reshape(-1), np.asarray(tup[1]).reshape(-1)
+                return (unique and len(set(idx.tolist())) != len(idx)) or not (len(idx) > 0 and len(idx) == len(dat))
+            dt = case.get("dtup_override") if case.get("dtup_override") is not None else (case["didx"], case["ddat"])
+            must = expect_error(dt, True) or expect_error(case["ntup"], False)
+            res = core.call(lambda: run_impl(case)[2])
+            if must and res[0] == "ok":
+                return core.Violation("errors", "inconsistent boundary data (%s) are accepted instead of ValueError" % case["name"][4:], case)
             return None
         n = len(case["v"])
         try:
